@@ -158,6 +158,24 @@ CHECKS["C20"] = dict(level="model_checking", design="5 C20",
          "findings, each a (kind, method, attribute) signature); padding/partition of the threaded kernels is model-checked for "
          "all sizes <= 40 (<= 60 points) and thread counts <= 16 and observed bit-identical on the real kernels.")
 
+CHECKS["C18"] = dict(level="model_checking", design="5 C18",
+    note="Trusted: TLC/SANY, BigInt/Rat definitions; pi is carried symbolically (a/pi + b + c*pi) with a 1e-40 enclosure. Decided by "
+         "the specification: partition/re-insertion algebra, geometry derivation, which load parts scale with the load factor, the "
+         "closed-form axial and pressure terms (checked against first-principles virtual work on the spec side), point forces on the "
+         "quarter-turn lattice where the trigonometric shape functions are rational. Observed (judged by the trace spec on the "
+         "package's own numbers): virtual work of arbitrary point forces and of the torque through uvw at unit amplitudes, and the "
+         "residual of K_uu c_u = f_u. The shell kernels (.pyx) are those loaded.",
+    technique="TLA+ modules ShellPartition (exclude/re-insert algebra on integer matrices), ShellGeometry (derivation of r1, r2, H, L "
+              "and load rebuild as a state machine, pi symbolic), ShellLoads (load vector = virtual work; affine in the load factor); "
+              "every TLC-enumerated transition replayed on exclude_dofs_matrix / calc_full_c / _rebuild / calc_fext of real ConeCyl "
+              "objects, verdict by TLC trace validation",
+    text="Book-keeping of complete shells: removal and re-insertion of prescribed amplitudes are inverse operations and give the "
+         "reduced system with the prescribed-displacement terms on the right-hand side (TLC invariants, exact replay on integer "
+         "matrices and on real k0), derived geometry is mutually consistent for all 16 input subsets x Pythagorean cone angles, the "
+         "load vector is affine in the load factor with exactly the documented parts scaled, and equals the virtual work (exact on "
+         "the rational lattice, observed elsewhere). Four named deviations are known findings (torque as a point force, loads on "
+         "stiffness-free amplitudes dropped, LA column not moved to the right-hand side, kkk returns the complement block).")
+
 NOT_YET = {}
 
 NA = {
